@@ -75,10 +75,14 @@ def spec(tier):
 
 
 def run(tier, replay=None):
+    import jscore
+    jscore.LOOSE = True         # bare atomic operands and conditions: the optimizer matches literals syntactically
     return cfgdiff.run(spec(tier), tier, replay)
 
 
 if __name__ == "__main__":
+    import jscore
+    jscore.LOOSE = True
     if sys.argv[1] == "build-corpus":
         cfgdiff.build_corpus(spec("thorough"), "c05", int(sys.argv[2]), int(sys.argv[3]))
     elif sys.argv[1] == "vet":
